@@ -59,7 +59,7 @@ HANG_HOST = "hang.test"               # resolver never answers: connect phase ne
 
 def shards(tier, seed):
     if tier == "quick":
-        return [{"n": 50} for _ in range(32)]
+        return [{"n": 100} for _ in range(16)]
     return [{"n": 1300} for _ in range(48)]
 
 
